@@ -32,8 +32,14 @@ Definition endintr_active (rn:rnode) (ety:nat) : bool :=
 Definition defers_active (rn:rnode) (ety:nat) : bool :=
   active_any rn (fun st => memb ety (s_defers st)) (fun co kn => co_defers co kn ety).
 
+(* favor_compile_time's is_end_interrupt_event only recognises event types that occur in this machine's own
+   transition_table (generate_event_set<front_end_t::transition_table>) *)
+Definition in_own_table (ety:nat) : bool :=
+  existsb (fun x => match r_trig x with TrEv e => Nat.eqb e ety | _ => false end) (m_rows mc).
+Definition is_end_interrupt (rn:rnode) (ety:nat) : bool :=
+  endintr_active rn ety && (negb (c_fct cf) || in_own_table ety).
 Definition mblocked (rn:rnode) (ety:nat) : bool :=
-  has_blocking mc && (term_active rn || (intr_active rn && negb (endintr_active rn ety))).
+  has_blocking mc && (term_active rn || (intr_active rn && negb (is_end_interrupt rn ety))).
 
 Definition push_deferred (e:evt) (next_seq:bool) : M unit :=
   rn <- get ;;
